@@ -9,25 +9,25 @@ os.makedirs(dst, exist_ok=True)
 shutil.copy(f'/tmp/mut/{name}.patch', f'{dst}/patch.diff')
 res = json.load(open(f'/tmp/mut/{name}.result.json'))
 for d in res.get('demo_files', []):
-    shutil.copy(f'{src}/{d}', f'{dst}/{os.path.basename(os.path.dirname(d)) + "__" if os.path.dirname(d) else ""}{os.path.basename(d)}.txt')
+    shutil.copy(f'{src}/{d}', f'{dst}/{os.path.basename(d)}')
 m = res.get('meta', {})
 suite = {}
-if os.path.exists('/tmp/mut/suite_results.txt'):
-    for l in open('/tmp/mut/suite_results.txt'):
-        if l.startswith(name + ' '):
-            suite[l.split('module=')[1].split(' ')[0]] = l.split('::', 1)[1].strip()
+if os.path.exists(f'/tmp/mut/{name}.suite.json'):
+    sj = json.load(open(f'/tmp/mut/{name}.suite.json'))
+    suite = {'repo_head': sj.get('head'), 'passes': sj.get('suite_passes'), 'modules': sj.get('suite'),
+             'tests_rerun_alone_after_a_loaded_first_run': sorted(set(sj.get('retried', [])))}
 meta = {
     'property': prop,
     'summary': m.get('summary'),
     'needs_to_manifest': m.get('needs'),
     'files': m.get('files'),
-    'demo_files': [os.path.basename(d) + '.txt (was ' + d + ' in the worktree; renamed so that it is not compiled here)' for d in res.get('demo_files', [])],
+    'demo_files': [os.path.basename(d) + ' (goes to ' + d + ' in the worktree)' for d in res.get('demo_files', [])],
     'demo_cmd': res.get('demo_cmd'),
     'confirmed_by_coordinator': {
         'applies_to_repo_head': res.get('applies'), 'builds': res.get('builds'),
         'demo_with_change': res.get('demo_with_change'), 'demo_without_change': res.get('demo_without_change'),
         'pinned_suite': suite or 'see DESIGN.md 8.4',
-        'how': 'tools/seed_eval.py: fresh worktree of /repo HEAD, git apply patch.diff, demo run with and without the change, check run with VERIF_REPO=<worktree>; tools/baseline_check.py for the pinned suite',
+        'how': 'tools/seed_eval.py: fresh worktree of /repo HEAD, git apply patch.diff, demo run with and without the change, check run with VERIF_REPO=<worktree>; tools/seed_suite.py for the pinned suite (hooks off, default toolchain, every module the patch touches, compared with BASELINE.json stable_pass)',
     },
     'caught_by': [c for c in caught.split(',') if c and c != '-'],
     'first_check_result': {'rc': res.get('check_rc'), 'lines': res.get('check_lines')},
